@@ -421,6 +421,32 @@ def run(ctx):
                             {"kind": "oracle", "case": dict(describe(c), cplx="rc"), "in1": repr(a.tolist()), "in2": repr(f.tolist()),
                              "observed": repr(y.tolist()), "expected": repr(ref.tolist())}))
     ctx.coverage["mixed_dtype_calls"] = n_mixed
+    # the same values in non-C-contiguous memory layouts (numpy-generated arrays are always C-contiguous)
+    from vlib import layouts
+    for k, c in enumerate(cases):
+        if k % 3 or (c["mode"] == "valid" and relation(c) == "n>m"):
+            continue
+        osh = oshape_doc(c)
+        sh1 = c["dshape"] if c["op"] == "convolve" else osh
+        sh2 = c["fshape"] if c["op"] in ("convolve", "data_adjoint") else c["dshape"]
+        cpl = c["cplx"][0] == "c"
+        a, f = intarr(rng, sh1, cpl), intarr(rng, sh2, cpl and c["cplx"][1] == "c")
+        va, vf = layouts.variants(a, rng, k=1), layouts.variants(f, rng, k=1)
+        a2, f2 = (va[0][1] if va else a), (vf[0][1] if vf and k % 2 else f)
+        tag = "%s/%s" % (va[0][0] if va else "C", vf[0][0] if vf and k % 2 else "C")
+        try:
+            r = run_case(sp, rng, c, arrays=(a2, f2))
+        except Exception as e:
+            bad.setdefault("exception-layout:" + c["op"], ("%s raised %r on non-contiguous inputs (%s)" % (c["op"], e, tag),
+                                                           {"kind": "impl-exception", "case": describe(c), "layout": tag, "error": repr(e)}))
+            continue
+        ctx.count("layout:%s" % c["op"], key=json.dumps(describe(c), sort_keys=True) + tag, nontrivial=True)
+        y, ref = r["y"], r["ref"]
+        if list(y.shape) != list(ref.shape) or not np.allclose(y, ref, rtol=0, atol=1e-9):
+            bad.setdefault("oracle:layout:" + c["op"],
+                           ("%s differs from the convolution definition when its arrays are stored in layout %s (%s)" % (c["op"], tag, cls_of(c)),
+                            {"kind": "oracle", "case": describe(c), "layout": tag, "in1": repr(np.asarray(a).tolist()), "in2": repr(np.asarray(f).tolist()),
+                             "in1_strides": list(a2.strides), "in2_strides": list(f2.strides), "observed": repr(y.tolist()), "expected": repr(ref.tolist())}))
     # dot tests / bilinearity on the same shapes (complex floats)
     n_dot = 0
     seen_shapes = set()
